@@ -71,6 +71,20 @@ func (d *directed) hookPlan(t int) []dtok {
 	return plan
 }
 
+// nextUnmarshalFails: does the model trace let the next UnmarshalFrame of thread t fail?
+func (d *directed) nextUnmarshalFails(t int) bool {
+	for i := d.pos + 1; i < len(d.script); i++ {
+		e := d.script[i]
+		if e.t == t && e.kind == "A" && strings.HasPrefix(e.what, "unm") {
+			return !e.ok
+		}
+		if e.t == t && e.kind == "RV" {
+			return false
+		}
+	}
+	return false
+}
+
 func hx(s string) int { v, _ := strconv.ParseInt(s, 16, 64); return int(v) }
 
 func parseScript(line string) []dtok {
@@ -113,10 +127,10 @@ func (r *runner) releasePause(t int) {
 	}
 }
 
-// runDirected forces one model trace.
-func runDirected(line string) string {
+// runDirected forces one model trace (startOn: explored with the transmitter's message enabled from the start).
+func runDirected(line string, startOn bool) string {
 	d := &directed{script: parseScript(line)}
-	sc := scenario{hasRx: true, txs: []txSpec{{tid: 2}}, apps: [][]appOp{nil}}
+	sc := scenario{hasRx: true, txs: []txSpec{{tid: 2, startOn: startOn}}, apps: [][]appOp{nil}}
 	r, cfg := setup(sc, d)
 	w := r.w
 	app := r.apps[0]
@@ -253,6 +267,9 @@ script:
 	name := "xf"
 	if !followed {
 		name = "xp"
+	}
+	if startOn {
+		name += "on"
 	}
 	return r.line(name, cfg)
 }
